@@ -80,6 +80,11 @@ def gen(ctx):
         for cmd in (b"put ", b"cd ", b"mkdir ", b"del ", b"size ", b"rmdir ", b"ls ", b"rename x "):
             yield scenario(LOGIN + (xfer("ls", main=550) if cmd == b"ls " else [R(b"550 no"), R(b"550 no")]) + [R(b"200 noop"), R(b"221 bye")], files, OPEN + [cmd + name, b"noop", b"exit"])
         yield scenario([], files, [b"open " + name + b" 21", b"open 127.0.0.1 " + name, b"pwd", b"exit"])
+    # port arguments of `open` at every width: digits beyond 16, 32 and 64 bits, signs, blanks, empty, non-digits
+    ports = [b"0", b"65535", b"65536", b"99999", b"4294967295", b"4294967296", b"9999999999999999999", b"18446744073709551615",
+             b"18446744073709551616", b"99999999999999999999999999", b"1" + b"0" * 40, b"-1", b"+21", b"21x", b"x21", b"0x15", b"2 1", b"\"\"", b"\" 21\"", b"00000000000000000000000021"]
+    for i in range(0, len(ports), 4):
+        yield scenario([], files, [b"open 127.0.0.1 " + q for q in ports[i:i + 4]] + [b"help", b"pwd", b"exit"])
     # put: missing file, directory, existing file; refused
     for loc in (b"data.bin", b"keep.txt", b"missing.bin", b"sub", LONG):
         for main in (150, 553):
